@@ -12,6 +12,7 @@
 #include <fcppt/impl/codecvt_type.hpp>
 #include <fcppt/optional/object_impl.hpp>
 #include <fcppt/config/external_begin.hpp>
+#include <algorithm>
 #include <iterator>
 #include <locale>
 #include <string>
@@ -47,6 +48,9 @@ fcppt::optional::object<std::basic_string<Out>> codecvt(
 
   state_type state{};
 
+  typename buffer_type::size_type const max_length{
+      fcppt::cast::to_unsigned(std::max(conv.max_length(), 1))};
+
   for (In const *from = _string.data(),
                 *from_next = nullptr;
        ; // loop forever
@@ -76,12 +80,14 @@ fcppt::optional::object<std::basic_string<Out>> codecvt(
     case std::codecvt_base::error:
       return optional_return_type{};
     case std::codecvt_base::partial:
-      if (written == 0U)
+      // If nothing could be written although the write area can hold every
+      // single converted character, the input ends in an incomplete sequence.
+      if (written == 0U && buf.write_size() >= max_length)
       {
-        return optional_return_type{return_type(buf.begin(), buf.end())};
+        return optional_return_type{};
       }
 
-      buf.resize_write_area(buf.read_size() * 2U);
+      buf.resize_write_area(std::max(buf.read_size() * 2U, max_length));
       continue;
     case std::codecvt_base::ok:
       return optional_return_type{return_type(buf.begin(), buf.end())};
